@@ -56,7 +56,7 @@ class C19(Check):
                    'behaviour = encode bytes (or error class), decode value, decode of truncated bytes on probe values']
 
     def shards(self, tier):
-        return [{'i': i, 'codecs': CODECS} for i in range(16)]
+        return [{'i': i, 'codecs': CODECS, 'ne': i % 2 == 1} for i in range(16)]
 
     def run_shard(self, shard, tier, seed, rec):
         scale = float(os.environ.get('ASN1V_SCALE', '1'))
@@ -64,12 +64,19 @@ class C19(Check):
         prof = gen.Profile(max_types=4, max_depth=3, ext_implied=True, components_of_rate=25, components_of_tagged=True, alias_chain_rate=60,
                            same_defaults_rate=50, dup_names_rate=30)
 
+        ne = bool(shard.get('ne'))
+
         def body(case, rec):
             spec, probes, arrs = case
             text0 = spec.text()
             ref = {}
+            if ne:
+                # every other shard compiles with numeric_enums=True (probe values converted accordingly)
+                tm = {n_: (m_.name, t_) for m_, n_, t_ in spec.top_types()}
+                probes = [(n_, values.to_numeric_enums(spec, tm[n_][1], tm[n_][0], v)) for n_, v in probes]
+                rec.cls('numeric-enums-cases')
             for codec in CODECS:
-                c0 = outcome(asn1tools.compile_string, text0, codec)
+                c0 = outcome(asn1tools.compile_string, text0, codec, numeric_enums=ne)
                 ref[codec] = c0
             for a, log in arrs:
                 if not log:
@@ -82,13 +89,13 @@ class C19(Check):
                 for codec in CODECS:
                     rec.ev()
                     c0 = ref[codec]
-                    c1 = outcome(asn1tools.compile_string, text1, codec)
+                    c1 = outcome(asn1tools.compile_string, text1, codec, numeric_enums=ne)
                     if c0[0] != 'ok' and c1[0] != 'ok':
                         rec.discarded['uncompilable-both'] += 1
                         continue
                     case_json = {'spec': jsonio.spec_enc(spec), 'text': spec.texts(),
                                  'arranged': jsonio.spec_enc(a), 'arranged_text': a.texts(), 'steps': log,
-                                 'codec': codec,
+                                 'codec': codec, 'numeric_enums': ne,
                                  'probes': [[n_, jsonio.enc(v)] for n_, v in probes]}
                     if c0[0] != c1[0]:
                         rec.fail(Failure('compile-differs', 'codec %s: original compile %s, arranged (%s) compile %s'
@@ -117,8 +124,9 @@ class C19(Check):
         a = jsonio.spec_dec(case['arranged'])
         codec = case['codec']
         probes = [(None, n, jsonio.dec(v)) for n, v in case['probes']]
-        c0 = outcome(asn1tools.compile_string, spec.text(), codec)
-        c1 = outcome(asn1tools.compile_string, a.text(), codec)
+        ne = bool(case.get('numeric_enums'))
+        c0 = outcome(asn1tools.compile_string, spec.text(), codec, numeric_enums=ne)
+        c1 = outcome(asn1tools.compile_string, a.text(), codec, numeric_enums=ne)
         if c0[0] != c1[0]:
             rec.fail(Failure('compile-differs', 'compile outcome differs', case))
             return
